@@ -15,16 +15,21 @@ import (
 	"verif/vf"
 )
 
-// mixedSizes is the payload length list of plan G, ordered so that the large and the small
-// end alternate (largest buffer growth steps, then small packets in large buffers).
-func mixedSizes(thorough bool) []int {
+// mixedSizes returns the three payload length lists of plan G. The set 2^k + {-1,0,1,7,8,9,
+// 15,16,17}, k = 4..17, plus 27 neighbours of 8192, 16384, 65536 (thorough: of every 2^k,
+// k = 9..17) is dealt out in ascending order to three connections, and each connection sends
+// its share in a different order: [0] from both ends inwards (small, largest, next small,
+// next largest ...: small packets in a buffer that is already large), [1] ascending (every
+// buffer growth step is a jump to the next power of two), [2] from the middle outwards
+// (small and large alternate and every large packet is larger than all before it).
+func mixedSizes(thorough bool) [3][]int {
 	set := map[int]bool{}
 	for k := 4; k <= 17; k++ {
 		for _, d := range []int{-1, 0, 1, 7, 8, 9, 15, 16, 17} {
 			set[1<<k+d] = true
 		}
 	}
-	dense := []int{8192, 16384, 65536, 131072}
+	dense := []int{8192, 16384, 65536}
 	if thorough {
 		dense = nil
 		for k := 9; k <= 17; k++ {
@@ -41,11 +46,25 @@ func mixedSizes(thorough bool) []int {
 		asc = append(asc, n)
 	}
 	sort.Ints(asc)
-	var out []int
-	for i, j := 0, len(asc)-1; i <= j; i, j = i+1, j-1 {
-		out = append(out, asc[i])
+	var share [3][]int
+	for i, n := range asc {
+		share[i%3] = append(share[i%3], n)
+	}
+	var out [3][]int
+	for i, j := 0, len(share[0])-1; i <= j; i, j = i+1, j-1 {
+		out[0] = append(out[0], share[0][i])
 		if i != j {
-			out = append(out, asc[j])
+			out[0] = append(out[0], share[0][j])
+		}
+	}
+	out[1] = share[1]
+	mid := len(share[2]) / 2
+	for d := 0; mid-d >= 0 || mid+d < len(share[2]); d++ {
+		if d > 0 && mid-d >= 0 {
+			out[2] = append(out[2], share[2][mid-d])
+		}
+		if mid+d < len(share[2]) {
+			out[2] = append(out[2], share[2][mid+d])
 		}
 	}
 	return out
